@@ -59,6 +59,13 @@ impl Utf8Accum {
     }
 }
 
+#[cfg(feature = "verif-hooks")]
+impl Utf8Accum {
+    pub(crate) fn verif_parts(&self) -> ([u8; 4], u8, u8) {
+        (self.buffer, self.expected, self.partial)
+    }
+}
+
 #[cfg(test)]
 mod tests {
     use std::string::String;
